@@ -3,3 +3,4 @@
 -/
 import SoupVerif.Lemmas.ParserProgress.Step
 import SoupVerif.Lemmas.ParserProgress.Fuel
+import SoupVerif.Lemmas.ParserProgress.Custom
